@@ -4,8 +4,12 @@ Implementation side: the grammar / model family of harness/objgen.py rendered wi
 layouts (leading, trailing and interleaved whitespace, `\\r\\n`, line and block comments,
 tokens glued together where lexically possible, non-ASCII identifiers), plus a small "mini"
 family (every maximal run of letters in a string over {a, b, space, \\n, \\r} is an object)
-and a "multi" family (2-4 files that import each other and refer to each other's items, so
-several models, parsers and file names coexist).
+a "multi" family (2-4 files that refer to each other's items, so several models, parsers and
+file names coexist: mode "import" = importURI imports, mode "repo" = global-repository scope
+providers with a file pattern or add_model, file 0 then also given as a string, optionally one
+repository shared by all loads) and a "lang" family (grammars that use the same literal at many
+places — keyword-like words and symbols, directly or through one-literal match rules —, interior
+matches with the suppress operator '-', meta-models with autokwd / ignore_case / memoization).
 
 Every text is turned into a model in one of the ways the quantifier names ("loaded from
 strings and from files"): `model_from_str(text)`, `model_from_str(text, file_name=...)`,
@@ -112,8 +116,31 @@ def multi_tokens(case, i):
     return toks, objs
 
 
+def multi_src(case, i):
+    """how file i becomes a model: file 0 as the load configuration says; the others are read from their files by the
+    scope provider — or, mode "repo" with lib "add_str" / "add_file", loaded by the user and handed to the provider
+    with add_model (the documented way of combining models parsed from strings)"""
+    if i == 0:
+        return src_of(case)
+    if case.get("mode") == "repo" and case.get("lib") == "add_str":
+        return "str"
+    return "file"
+
+
 def multi_translated(case, i):
-    return True if i > 0 else translated(case)
+    return multi_src(case, i) in ("file", "rel")
+
+
+def multi_visible(case, i):
+    """files whose items file i can refer to"""
+    n = len(case["files"])
+    if case.get("mode") != "repo":
+        return [i] + list(case["files"][i]["imports"])
+    if i == 0:
+        return list(range(n))
+    if case.get("lib", "pattern") == "pattern":
+        return list(range(1, n))
+    return list(range(1, i + 1))  # added one after the other
 
 
 def multi_expected(case, i, translate=None):
@@ -146,7 +173,10 @@ def multi_valid(case):
             if j not in seen:
                 seen.add(j)
                 todo.append(j)
-    if len(seen) != len(files):
+    if case.get("mode") == "repo":
+        if any(f["imports"] for f in files) or (len(files) < 2 and case.get("lib", "pattern") == "pattern"):
+            return False
+    elif len(seen) != len(files):
         return False
     where = {}
     for i, f in enumerate(files):
@@ -156,12 +186,44 @@ def multi_valid(case):
             where[name] = i
     for i, f in enumerate(files):
         for _, ref in f["items"]:
-            if ref is not None and where.get(ref) not in [i] + f["imports"]:
+            if ref is not None and where.get(ref) not in multi_visible(case, i):
                 return False
     return True
 
 
+def gen_multi_repo(r):
+    """mode "repo": no imports — the other files are found by a global-repository scope provider (FQNGlobalRepo /
+    PlainNameGlobalRepo) through a file pattern, or were loaded before (from strings / files) and added with
+    add_model.  File 0 may now be given as a string without file name: the provider enters it into the model
+    repository under an invented name, which is not "the model's file name"."""
+    nf = r.randint(2, 4)
+    dirs = ["", "", "sub", "sub/deep", "lib"]
+    files = [{"path": posixpath.join(r.choice(dirs) if i else "", f"f{i}.txt"), "imports": [],
+              "items": [[f"n{i}x{k}", None] for k in range(r.randint(1, 3))]} for i in range(nf)]
+    case = {"kind": "multi", "mode": "repo", "files": files, "provider": r.choice(["fqn", "plain"]),
+            "lib": r.weighted([("pattern", 3), ("add_str", 1), ("add_file", 1)]), "global_repo": r.chance(0.25)}
+    for i, f in enumerate(files):
+        visible = [it[0] for j in multi_visible(case, i) for it in files[j]["items"]]
+        for it in f["items"]:
+            if r.chance(0.65):
+                it[1] = r.choice(visible)
+        f["layout"] = G.gen_layout(r, MULTI_LAYOUT_GRAM, len(multi_tokens(case, i)[0]))
+    c = r.fork("cfg")
+    src = c.weighted([("str", 5), ("file", 2), ("named", 1), ("rel", 1)])
+    case.update({"mm_src": c.weighted([("str", 4), ("file", 3), ("named", 1)]), "src": src, "file": src in ("file", "rel"),
+                 "proc": c.chance(0.3)})
+    if src == "named":
+        # a shared repository caches models by file name: a text given *for* a file that an earlier load has already
+        # read from disk is (by design) not parsed again — the "editor buffer" would not be the input
+        case["global_repo"] = False
+    if c.chance(0.4):  # further string models with the same meta-model (and provider) before / after
+        case["hist"] = {"pre": ["str"] * c.randint(0, 2), "post": ["str"] * c.randint(0, 2)}
+    return case
+
+
 def gen_multi(r):
+    if r.fork("mode").chance(0.5):
+        return gen_multi_repo(r)
     nf = r.randint(2, 4)
     dirs = ["", "", "sub", "sub/deep", "lib"]
     files = [{"path": posixpath.join(r.choice(dirs) if i else "", f"f{i}.txt"), "imports": [], "items": []}
@@ -184,6 +246,209 @@ def gen_multi(r):
         f["layout"] = G.gen_layout(r, MULTI_LAYOUT_GRAM, len(multi_tokens(case, i)[0]))
     case.update(gen_cfg(r.fork("cfg"), multi=True))
     return case
+
+
+# ---------------------------------------------------------------------- the "lang" family
+# Grammar-language constructs and meta-model options that decide how a *match* becomes (or does not become) a parse
+# tree node — the first / last matched character of an object is a keyword more often than not:
+#   * the same literal at several places of the grammar (the objgen family draws a fresh keyword for every place),
+#     keyword-like words and symbols, as a string match ('w') or through a one-literal match rule (K: 'w';);
+#   * meta-model options autokwd / ignore_case (keywords become regex matches; text in mixed case) / memoization;
+#   * the suppress operator '-' on *interior* occurrences (an object never starts or ends with a suppressed match:
+#     what "first matched character" means there is left open by the statement; the other occurrences of the same
+#     literal are what is observed).
+# Every common rule R<i> starts with a literal of its own (`first`, distinct, prefix-free pool), contains only rules with
+# a larger index and never ends with a list, so the PEG parse is the derivation.
+LANG_WORDS = ["note", "sec", "end", "item", "of", "to", "with", "begin"]
+LANG_SYMS = ["#", "::", "=>", "%", "~"]
+LANG_LAYOUT_GRAM = {"comment": True}
+
+
+def lang_lit_name(g, w):
+    return "K%d" % g["pool"].index(w)
+
+
+def lang_render(g):
+    def lit(e):
+        s = lang_lit_name(g, e["w"]) if e.get("via") else "'%s'" % e["w"]
+        return s + ("-" if e.get("sup") else "")
+
+    lines = ["Model: cmds+=Cmd;", "Cmd: " + " | ".join(f"R{i}" for i in g["top"]) + ";"]
+    for i, r in enumerate(g["rules"]):
+        parts = []
+        for j, e in enumerate(r):
+            if e["k"] == "lit":
+                parts.append(lit(e))
+            elif e["k"] == "name":
+                parts.append("name=ID")
+            elif e["k"] == "str":
+                parts.append(f"s{j}=STRING")
+            else:
+                parts.append(f"k{j}{e['op']}=R{e['t']}")
+        lines.append(f"R{i}: " + " ".join(parts) + ";")
+    for w in g["pool"]:
+        if any(e["k"] == "lit" and e.get("via") and e["w"] == w for r in g["rules"] for e in r):
+            lines.append(f"{lang_lit_name(g, w)}: '{w}';")
+    lines.append(G.COMMENT_RULE)
+    return "\n".join(lines) + "\n"
+
+
+def lang_names(g):
+    return sorted(["Model", "Cmd"] + [f"R{i}" for i in range(len(g["rules"]))] + [f"K{i}" for i in range(len(g["pool"]))])
+
+
+def lang_opts(g):
+    return {k: bool(v) for k, v in g.get("opts", {}).items()}
+
+
+def gen_lang_grammar(r):
+    nw = r.randint(4, 6)
+    pool = r.sample(LANG_WORDS, min(nw, len(LANG_WORDS)))[:nw]
+    if r.chance(0.5):
+        pool += r.sample(LANG_SYMS, r.randint(1, 2))
+    nr = r.randint(2, 4)
+    firsts = r.sample(pool, nr)
+    rules = []
+    for i in range(nr):
+        def lit(first=False, last=False, avoid=()):
+            cands = [w for w in pool if w not in avoid] or [w for w in pool]
+            w = r.choice(cands)
+            # preferably a literal that is also the first literal of a rule (the interesting coincidence)
+            if r.chance(0.5):
+                w = r.choice([f for f in firsts if f not in avoid] or cands)
+            return {"k": "lit", "w": w, "sup": (not last) and r.chance(0.35), "via": r.chance(0.2)}
+
+        els = [{"k": "lit", "w": firsts[i], "sup": False, "via": r.chance(0.2)}]
+        for _ in range(r.randint(1, 4)):
+            kind = r.weighted([("lit", 5), ("name", 2), ("str", 2), ("kids", 3 if i < nr - 1 else 0)])
+            prev = els[-1]
+            avoid = [firsts[prev["t"]]] if prev["k"] == "kids" else []
+            if kind == "lit":
+                els.append(lit(avoid=avoid))
+            elif kind == "name":
+                if prev["k"] != "kids" and not any(e["k"] == "name" for e in els):
+                    els.append({"k": "name"})
+            elif kind == "str":
+                if prev["k"] != "kids":
+                    els.append({"k": "str"})
+            elif prev["k"] != "kids":
+                els.append({"k": "kids", "t": r.randint(i + 1, nr - 1), "op": r.choice(["*", "+"])})
+        last = els[-1]
+        if last["k"] == "kids" or (last["k"] == "lit" and last["sup"]) or r.chance(0.4) or len(els) == 1:
+            avoid = [firsts[last["t"]]] if last["k"] == "kids" else []
+            els.append(dict(lit(last=True, avoid=avoid), sup=False))
+        if not any(e["k"] != "lit" for e in els):  # a rule without assignment would be a match rule
+            els.insert(1, {"k": "name"})
+        rules.append(els)
+    top = sorted(set([0] + [i for i in range(1, nr) if r.chance(0.6)]))
+    return {"pool": pool, "rules": rules, "top": top,
+            "opts": {"autokwd": r.chance(0.6), "ignore_case": r.chance(0.3), "memoization": r.chance(0.2)}}
+
+
+def gen_lang_node(r, g, i, depth, cnt):
+    node = {"r": i, "kids": {}}
+    for j, e in enumerate(g["rules"][i]):
+        if e["k"] == "name":
+            node["name"] = "n%d" % cnt[0]
+            cnt[0] += 1
+        elif e["k"] == "kids":
+            lo = 1 if e["op"] == "+" else 0
+            n = r.randint(lo, 2) if depth > 0 else lo
+            node["kids"][str(j)] = [gen_lang_node(r, g, e["t"], depth - 1, cnt) for _ in range(n)]
+    return node
+
+
+def gen_lang(r):
+    g = gen_lang_grammar(r.fork("g"))
+    cnt = [0]
+    cmds = [gen_lang_node(r, g, r.choice(g["top"]), 2, cnt) for _ in range(r.randint(1, 4))]
+    case = {"kind": "lang", "g": g, "cmds": cmds, "casing": r.randint(0, 1 << 30)}
+    ntoks = len(lang_tokens(case)[0])
+    case["layout"] = G.gen_layout(r, LANG_LAYOUT_GRAM, ntoks)
+    return case
+
+
+def lang_tokens(case):
+    """tokens (suppressed ones included: they are in the text) and the objects in document order as
+    [class, name, first kept token, last kept token, parent, {attr: [children]}]"""
+    g = case["g"]
+    toks, kept, objs = [], [], []
+    seed = [case.get("casing", 0)]
+
+    def cased(w):
+        if not g.get("opts", {}).get("ignore_case"):
+            return w
+        out = []
+        for c in w:
+            seed[0] = (seed[0] * 1103515245 + 12345) % (1 << 31)
+            out.append(c.upper() if (seed[0] >> 16) & 1 else c)
+        return "".join(out)
+
+    def walk(node, parent):
+        me = len(objs)
+        o = [f"R{node['r']}", node.get("name"), None, None, parent, {}]
+        objs.append(o)
+        for j, e in enumerate(g["rules"][node["r"]]):
+            if e["k"] == "kids":
+                o[5][f"k{j}"] = [walk(k, me) for k in node["kids"].get(str(j), [])]
+                continue
+            if e["k"] == "lit":
+                toks.append(cased(e["w"]))
+                kept.append(not e.get("sup"))
+            elif e["k"] == "name":
+                toks.append(node["name"])
+                kept.append(True)
+            else:
+                toks.append('"s%d // %d"' % (me, j) if (me + j) % 3 == 0 else '"s%d"' % me)
+                kept.append(True)
+        return me
+
+    objs.append(["Model", None, None, None, None, {}])  # the root is object 0
+    tops = [walk(c, 0) for c in case["cmds"]]
+    objs[0][5]["cmds"] = tops
+    return toks, (kept, objs)
+
+
+def lang_expected(case, translate=False):
+    toks, (kept, objs) = lang_tokens(case)
+    text, offs = G.assemble(LANG_LAYOUT_GRAM, toks, case["layout"], translate)
+    # token ranges of the objects: pre-order numbering, an object's tokens are contiguous
+    g = case["g"]
+    spans = {}
+    ti = [0]
+
+    def walk(node, me_box):
+        me = me_box[0]
+        me_box[0] += 1
+        a = b = None
+        for j, e in enumerate(g["rules"][node["r"]]):
+            if e["k"] == "kids":
+                for k in node["kids"].get(str(j), []):
+                    ka, kb = walk(k, me_box)
+                    a = ka if a is None else a
+                    b = kb
+                continue
+            if kept[ti[0]]:
+                a = offs[ti[0]][0] if a is None else a
+                b = offs[ti[0]][1]
+            ti[0] += 1
+        spans[me] = [a, b]
+        return a, b
+
+    box = [1]
+    ab = [walk(c, box) for c in case["cmds"]]
+    spans[0] = [ab[0][0], ab[-1][1]]
+    exp = []
+    for i, (cls, name, _, _, parent, kids) in enumerate(objs):
+        exp.append({"eid": i, "cls": cls, "name": name, "span": spans[i], "parent": parent,
+                    "attrs": [[a, "cont", v, True] for a, v in kids.items()]})
+    return text, exp
+
+
+def lang_valid(case):
+    g = case["g"]
+    used = {c["r"] for c in case["cmds"]}
+    return bool(case["cmds"]) and used <= set(g["top"])
 
 
 class Prop(Check):
@@ -210,7 +475,11 @@ class Prop(Check):
     PROCS_THOROUGH = 4
     RULE = ("random grammar + derived model rendered with a random layout (whitespace incl. \\r\\n and bare \\r, line / "
             "block comments, glued tokens, non-ASCII names); 'mini' texts over {a,b,space,\\n,\\r}; 'multi': 2-4 files "
-            "importing each other (importURI, also cyclic) with cross-file references; each with a random load "
+            "importing each other (importURI, also cyclic) with cross-file references, or (mode repo) found through "
+            "FQNGlobalRepo / PlainNameGlobalRepo with a file pattern or add_model (string models too), file 0 from a "
+            "string or a file, optionally global_repository=True and further string models before / after; 'lang': "
+            "grammars repeating the same literals (words, symbols, one-literal match rules) at many places, interior "
+            "matches suppressed with '-', autokwd / ignore_case / memoization; each with a random load "
             "configuration: model from string / string with file_name / absolute / relative file, grammar from string / "
             "string with file_name / file, other models loaded with the same meta-model before and after, get_location "
             "also asked from object processors during the load; "
@@ -223,23 +492,33 @@ class Prop(Check):
                 "tie X: pos_to_linecol on sampled positions, get_location and spans of every object of every loaded "
                 "model, process_node on the real parse tree, WF predicate on the real parse tree; the Arpeggio "
                 "interpreter itself is not modelled here (well-formedness of its trees is checked on every case, not "
-                "proved); Python attribute lookup (instance vs class `_tx_filename`) is not modelled: the model reads "
+                "proved); how textx/lang.py builds parser expressions from the grammar (shared / per-occurrence match "
+                "objects, suppress flags) and the model repository of textx/scoping are not modelled (correspondence "
+                "and direct oracle only); Python attribute lookup (instance vs class `_tx_filename`) is not modelled: the model reads "
                 "the file name of the model root, the grammar's file name does not exist in it")
     ASSUMPTIONS = [
-        "'matched' = retained in the parse tree: suppressed matches ('-') and empty string literals are outside the fragment",
+        "'matched' = retained in the parse tree: empty string literals are outside the fragment; suppressed matches "
+        "('-') are generated at interior places only (no object starts or ends with one)",
         "lines are separated by \\n (a bare \\r does not start a new line); for files the input is the text as read "
         "by Python (universal newlines)",
         "Arpeggio parse trees have ordered, non-overlapping, non-empty terminals and no empty NonTerminal "
         "(PT.wfB; checked on every generated case)",
         "the model's file name is None for model_from_str(text), the absolute path for model_from_file(path) (also "
-        "when a relative path was given) and for model_from_str(text, file_name=path)",
+        "when a relative path was given) and for model_from_str(text, file_name=path); a name a model repository "
+        "invents for a string model is not a file name",
     ]
 
     # ------------------------------------------------------------------ generation
     def gen(self, rng, n, tier):
         nmini = n // 5
-        nmulti = n // 10
-        for k in range(n - nmini - nmulti):
+        nmulti = n // 8
+        nlang = n // 6
+        for k in range(nlang):
+            r = rng.fork(f"lang{k}")
+            case = gen_lang(r)
+            case.update(gen_cfg(r.fork("cfg")))
+            yield case
+        for k in range(n - nmini - nmulti - nlang):
             r = rng.fork(f"case{k}")
             gram = G.gen_grammar(r, want_user=r.chance(0.5))
             tree = G.derive(r, gram, maxdepth=r.randint(2, 4))
@@ -301,6 +580,8 @@ class Prop(Check):
             return G.universal_newlines(case["text"]) if translated(case) else case["text"]
         if case["kind"] == "gen":
             return G.expected(case["gram"], case["tree"], case["layout"], translate=translated(case))[0]
+        if case["kind"] == "lang":
+            return lang_expected(case, translate=translated(case))[0]
         return None
 
     def tmpdir(self, L):
@@ -361,6 +642,13 @@ class Prop(Check):
             raw = case["text"]
             L.text, L.exp = self.expected_of(case, {"text": self.case_text(case)})
             other = (case.get("hist") or {}).get("text", MINI_OTHER)
+            procs = ["Model", "W"]
+        elif case["kind"] == "lang":
+            grammar, kw = lang_render(case["g"]), lang_opts(case["g"])
+            L.text, L.exp = lang_expected(case, translate=translated(case))
+            raw = lang_expected(case, translate=False)[0]
+            other = lang_expected(dict(case, layout=dict(TRIVIAL_LAYOUT)), translate=False)[0]
+            procs = ["Model"] + [f"R{i}" for i in range(len(case["g"]["rules"]))]
         else:
             gram = case["gram"]
             grammar = G.render_grammar(gram)
@@ -369,8 +657,8 @@ class Prop(Check):
             L.text, L.exp = G.expected(gram, case["tree"], case["layout"], translate=translated(case))
             raw = G.expected(gram, case["tree"], case["layout"], translate=False)[0]
             other = G.expected(gram, case["tree"], TRIVIAL_LAYOUT, translate=False)[0]
+            procs = [r["name"] for r in case["gram"]["rules"] if r["kind"] == "common"]
         L.grammar = grammar
-        procs = ["Model", "W"] if case["kind"] == "mini" else [r["name"] for r in case["gram"]["rules"] if r["kind"] == "common"]
         L.mm = self.make_mm(case, L, grammar, procs=procs, **kw)
         hist = case.get("hist") or {}
         L.keep = []  # the other models stay alive (no recycled object ids)
@@ -453,7 +741,10 @@ class Prop(Check):
         if real is None:
             return {"outcome": "shape", "why": why, "text": L.text}
         idx = {id(o): i for i, o in enumerate(real)}
-        names = sorted(r["name"] for r in case["gram"]["rules"]) if case["kind"] == "gen" else ["Model", "W"]
+        if case["kind"] == "gen":
+            names = sorted(r["name"] for r in case["gram"]["rules"])
+        else:
+            names = lang_names(case["g"]) if case["kind"] == "lang" else ["Model", "W"]
         sub = self.observe_model(L, L.model, real, idx, names, self.file_code(L))
         text = L.text
         obs = {"outcome": "ok", "text": text, "input_same": sub.pop("input") == text, "names": names,
@@ -465,25 +756,80 @@ class Prop(Check):
     def load_multi(self, case, L):
         from textx.scoping.providers import PlainNameImportURI
 
+        import textx
+        from textx.scoping.providers import FQNGlobalRepo, PlainNameGlobalRepo
+
         L.grammar = MULTI_GRAMMAR
-        L.mm = self.make_mm(case, L, MULTI_GRAMMAR, procs=MULTI_NAMES)
-        L.mm.register_scope_providers({"*.*": PlainNameImportURI()})
+        repo = case.get("mode") == "repo"
+        kw = {"global_repository": True} if case.get("global_repo") else {}
+        L.mm = self.make_mm(case, L, MULTI_GRAMMAR, procs=MULTI_NAMES, **kw)
         root = self.tmpdir(L)
+        lib = case.get("lib", "pattern")
+        if repo:
+            cls = FQNGlobalRepo if case.get("provider") == "fqn" else PlainNameGlobalRepo
+            if lib == "pattern":
+                provider = cls(os.path.join(root, "**", "*.txt"), glob_args={"recursive": True})
+            else:
+                provider = cls()
+            L.mm.register_scope_providers({"*.*": provider})
+        else:
+            L.mm.register_scope_providers({"*.*": PlainNameImportURI()})
         L.paths = []
+        L.libs = {}
         for i, f in enumerate(case["files"]):
             path = os.path.join(root, *f["path"].split("/"))
             os.makedirs(os.path.dirname(path), exist_ok=True)
-            with open(path, "wb") as fh:
-                fh.write(multi_expected(case, i, translate=False)[0].encode("utf-8"))
+            if multi_src(case, i) != "str":  # a model given as a string has no file (the pattern must not find one)
+                with open(path, "wb") as fh:
+                    fh.write(multi_expected(case, i, translate=False)[0].encode("utf-8"))
             L.paths.append(path)
+        hist = case.get("hist") or {}
+        L.keep = []
+
+        def others(hows):
+            for how in hows:  # only "str" in this family: a file would be found by the pattern
+                m = L.mm.model_from_str("item zq%d" % len(L.keep))
+                L.keep.append(m)
+                try:
+                    textx.get_location(m.items[0])
+                except Exception:
+                    pass
+
+        if repo and lib != "pattern":
+            for i in range(1, len(case["files"])):
+                raw = multi_expected(case, i, translate=False)[0]
+                L.libs[i] = self.load_text(L, L.mm, multi_src(case, i), raw, case["files"][i]["path"])[0]
+                provider.add_model(L.libs[i])
+        others(hist.get("pre", []))
         raw = multi_expected(case, 0, translate=False)[0]
         L.model, L.file = self.load_text(L, L.mm, src_of(case), raw, case["files"][0]["path"])
+        others(hist.get("post", []))
 
     def observe_multi(self, case, L):
         files = case["files"]
         models = [None] * len(files)
         models[0] = L.model
         todo = [0]
+        if case.get("mode") == "repo":
+            # the models of the repository of file 0 (and the added ones), told apart by the names of their items
+            todo = []
+            cands = list(L.libs.values())
+            try:
+                cands += list(L.model._tx_model_repository.all_models.filename_to_model.values())
+            except Exception as e:
+                return {"outcome": "shape", "why": f"no model repository on file 0 ({type(e).__name__})"}
+            for m in cands:
+                items = getattr(m, "items", None)
+                mt = re.fullmatch(r"n(\d+)x\d+", str(getattr(items[0], "name", ""))) if isinstance(items, list) and items else None
+                if mt is None or int(mt.group(1)) >= len(files):
+                    continue  # a history model
+                i = int(mt.group(1))
+                if models[i] is None:
+                    models[i] = m
+                elif models[i] is not m:
+                    return {"outcome": "shape", "why": f"file {i} was loaded as two different models"}
+            if any(m is None for m in models):
+                return {"outcome": "shape", "why": f"files {[i for i, m in enumerate(models) if m is None]} are not in the repository"}
         while todo:
             i = todo.pop()
             imps = getattr(models[i], "imports", None)
@@ -545,7 +891,7 @@ class Prop(Check):
         if case["kind"] == "multi":
             heap = [h for s in subs for h in self.lean_heap(s["heap"])]
             # file i of the case has the file name i + 1; a model without file name has none
-            roots = [[s["off"], s["input"], (i + 1) if (i > 0 or src_of(case) != "str") else None]
+            roots = [[s["off"], s["input"], (i + 1) if multi_src(case, i) != "str" else None]
                      for i, s in enumerate(subs)]
             reqs = [{"op": "locm", "heap": heap, "roots": roots, "xs": list(range(len(heap)))}]
             for s in subs:
@@ -656,6 +1002,8 @@ class Prop(Check):
                 exp += [{"eid": i + 1, "cls": "W", "name": None, "span": [s, e], "parent": 0, "attrs": []}
                         for i, (s, e) in enumerate(runs)]
             return text, exp
+        if case["kind"] == "lang":
+            return lang_expected(case, translate=translated(case))
         return G.expected(case["gram"], case["tree"], case["layout"], translate=translated(case))
 
     @staticmethod
@@ -731,8 +1079,11 @@ class Prop(Check):
         for i, ((text, exp), s) in enumerate(zip(exps, obs["models"])):
             if s["input"] != text:
                 return f"file {i}: the parser input differs from the text of the file"
-            f = self.oracle_model(text, exp, s["objs"], f"f{i}", f"file {i} of the case ('f{i}')", label=f"file {i}: ",
-                                  plocs=s.get("plocs") or ())
+            if multi_src(case, i) == "str":
+                want = (None, "None (the model was given as a string)")
+            else:
+                want = (f"f{i}", f"file {i} of the case ('f{i}')")
+            f = self.oracle_model(text, exp, s["objs"], want[0], want[1], label=f"file {i}: ", plocs=s.get("plocs") or ())
             if f:
                 return f
             want = [[s["off"] + o["eid"], obs["models"][where[ref][0]]["off"] + where[ref][1]]
@@ -769,6 +1120,9 @@ class Prop(Check):
         v.update({"text": (obs.get("text") or "")[:400], "objs": (obs.get("objs") or [])[:6]})
         if case["kind"] == "gen":
             v["grammar"] = G.render_grammar(case["gram"])
+        if case["kind"] == "lang":
+            v["grammar"] = lang_render(case["g"])
+            v["opts"] = lang_opts(case["g"])
         return v
 
     def shrink(self, case):
@@ -788,7 +1142,7 @@ class Prop(Check):
         src = src_of(case)
         simpler = {"rel": ["str", "file"], "file": ["str"], "named": ["str", "file"], "str": []}[src]
         for s in simpler:
-            if not (case["kind"] == "multi" and s == "str"):
+            if not (case["kind"] == "multi" and s == "str" and case.get("mode") != "repo"):
                 yield with_src(case, s)
         if case["kind"] == "mini":
             t = case["text"]
@@ -797,6 +1151,9 @@ class Prop(Check):
             return
         if case["kind"] == "multi":
             yield from self.shrink_multi(case)
+            return
+        if case["kind"] == "lang":
+            yield from self.shrink_lang(case)
             return
         lay = case["layout"]
         if lay["seps"] or lay["lead"] is not None or lay["trail"] is not None:
@@ -808,11 +1165,63 @@ class Prop(Check):
         for t in G.shrink_tree(case["gram"], case["tree"]):
             yield dict(case, tree=t)
 
+    def shrink_lang(self, case):
+        def cp():
+            return G._copy(case)
+
+        g = case["g"]
+        for k, v in sorted(g.get("opts", {}).items()):  # which option is needed?
+            if v:
+                c = cp()
+                c["g"]["opts"][k] = False
+                yield c
+        for k in reversed(range(len(case["cmds"]))):
+            if len(case["cmds"]) > 1:
+                c = cp()
+                del c["cmds"][k]
+                yield c
+
+        def paths(node, pre):
+            for j, ks in sorted(node["kids"].items()):
+                for k, kid in enumerate(ks):
+                    yield pre + [(j, k)]
+                    yield from paths(kid, pre + [(j, k)])
+
+        for ci, cmd in enumerate(case["cmds"]):
+            for path in paths(cmd, []):
+                c = cp()
+                node = c["cmds"][ci]
+                for j, k in path[:-1]:
+                    node = node["kids"][j][k]
+                j, k = path[-1]
+                if g["rules"][node["r"]][int(j)]["op"] == "+" and len(node["kids"][j]) == 1:
+                    continue
+                del node["kids"][j][k]
+                yield c
+        lay = case["layout"]
+        if lay["seps"] or lay["lead"] is not None or lay["trail"] is not None:
+            yield dict(case, layout=dict(TRIVIAL_LAYOUT))
+            yield dict(case, layout=dict(lay, seps=[]))
+            yield dict(case, layout=dict(lay, lead=None, trail=None))
+        for i, r in enumerate(g["rules"]):  # grammar: a suppression, a match-rule indirection
+            for j, e in enumerate(r):
+                for key in ("sup", "via"):
+                    if e["k"] == "lit" and e.get(key):
+                        c = cp()
+                        c["g"]["rules"][i][j][key] = False
+                        yield c
+
     def shrink_multi(self, case):
         def cp():
             return G._copy(case)
 
         files = case["files"]
+        if case.get("global_repo"):
+            yield dict(case, global_repo=False)
+        if case.get("mode") == "repo" and case.get("lib", "pattern") != "pattern":
+            c = dict(case, lib="pattern")
+            if multi_valid(c):
+                yield c
         for k in reversed(range(1, len(files))):  # drop a whole file
             c = cp()
             del c["files"][k]
@@ -872,6 +1281,13 @@ class Prop(Check):
                                  "linecol_positions": sum(len(s["positions"]) for s in subs),
                                  "mini_cases": sum(1 for c in cases if c["kind"] == "mini"),
                                  "multi_cases": sum(1 for c in cases if c["kind"] == "multi"),
+                                 "multi_repo_cases": sum(1 for c in cases if c.get("mode") == "repo"),
+                                 "multi_repo_main_from_string": sum(1 for c in cases if c.get("mode") == "repo" and src_of(c) == "str"),
+                                 "lang_cases": sum(1 for c in cases if c["kind"] == "lang"),
+                                 "lang_autokwd": sum(1 for c in cases if c["kind"] == "lang" and c["g"]["opts"].get("autokwd")),
+                                 "lang_ignore_case": sum(1 for c in cases if c["kind"] == "lang" and c["g"]["opts"].get("ignore_case")),
+                                 "lang_suppressed_literals": sum(1 for c in cases if c["kind"] == "lang" for r in c["g"]["rules"]
+                                                                 for e in r if e.get("sup")),
                                  "models_in_multi_cases": sum(len(o["models"]) for c, o in ok if c["kind"] == "multi"),
                                  "cases_from_file": sum(1 for c in cases if translated(c)),
                                  "cases_with_history": sum(1 for c in cases if c.get("hist")),
